@@ -118,3 +118,13 @@ Lemma strict_rows_nonempty :
 Proof. vm_compute. reflexivity. Qed.
 Lemma conflict_row_nonempty : mem KeyError (nth entry_json_read_aas_json_file_into T_conf_fs []) = true.
 Proof. vm_compute. reflexivity. Qed.
+
+(* ---- used by the correspondence run of tools/c09.py: an exception of class e was seen leaving a reader function
+   whose instances are [ids], in scenario/mode table number t (0 document/failsafe, 1 document/strict,
+   2 bytes/failsafe, 3 bytes/strict) *)
+Definition table_no (t : nat) : list (list exn) :=
+  match t with 0 => T_doc_fs | 1 => T_doc_st | 2 => T_bytes_fs | _ => T_bytes_st end%nat.
+Definition check_unwind (c : exn * nat * list nat) : bool :=
+  let '(e, t, ids) := c in unwind_ok e (map (fun i => nth i (table_no t) []) ids).
+Definition check_origin (c : exn * list (list exn)) : bool := origin_ok (fst c) (snd c).
+Definition check_sub (c : exn * exn * bool) : bool := let '(a, b, x) := c in Bool.eqb (exn_sub a b) x.
